@@ -146,6 +146,9 @@ func run(r *vc.Run) int {
 	}
 	sort.Slice(contracts, func(i, j int) bool { return contracts[i].Pkg+contracts[i].Func < contracts[j].Pkg+contracts[j].Func })
 	outDir := filepath.Join(r.Verif, "out", r.Prop)
+	if coverMode {
+		outDir += "_cover" // the diagnosis never touches the output of a real check
+	}
 	os.RemoveAll(outDir)
 	os.MkdirAll(outDir, 0o755)
 	type job struct {
